@@ -212,23 +212,26 @@ def judgeFwd (fs : List String) (out : List String) : String :=
             let h := if o.hang then "-hang" else ""
             s!"OK{nt} b={kindName p}-{retBranch (returnedOf tr)}{h}"
 
-/-- judge one L2 case: `e2e … exp=<fields> => got=<fields>`: the harness prints the expected and the
-    observed canonical observation; they must be equal field by field. -/
+def splitKV (s : String) : String × String :=
+  match s.splitOn "=" with
+  | [] => ("", "")
+  | k :: rest => (k, "=".intercalate rest)
+
+/-- judge one L2 case: `e2e … want.<k>=<v> … => got.<k>=<v> …`: the scenario line states what client and
+    target must observe (what was sent, the target's status, promptness, no goroutine left; `*` = any),
+    the harness prints what they did observe on the real code; every wanted field must be matched. -/
 def judgeE2E (fs : List String) (out : List String) : String :=
-  let want := fs.filter (·.startsWith "want.")
-  let got := out.filter (·.startsWith "got.")
-  let wantV := want.map (fun s => (s.drop 5).toString)
-  let gotV := got.map (fun s => (s.drop 4).toString)
-  if out.any (·.startsWith "HARNESS") then s!"BAD {out}"
-  else if wantV.isEmpty then "BAD e2e-no-expectation"
+  let want := (fs.filter (·.startsWith "want.")).map (fun s => splitKV (s.drop 5).toString)
+  let got := (out.filter (·.startsWith "got.")).map (fun s => splitKV (s.drop 4).toString)
+  if out.any (·.startsWith "HARNESS") || out.any (·.startsWith "PANIC") then s!"BAD {out}"
+  else if want.isEmpty then "BAD e2e-no-expectation"
   else
-    match (wantV.zip gotV).find? (fun (a, b) => a ≠ b) with
-    | some (a, b) => s!"VIOL e2e want={a} got={b}"
+    let bad := want.find? (fun (k, v) => v ≠ "*" && got.lookup k ≠ some v)
+    match bad with
+    | some (k, v) => s!"VIOL e2e {k} want={v.take 40} got={((got.lookup k).getD "<missing>").take 40}"
     | none =>
-      if wantV.length ≠ gotV.length then s!"VIOL e2e field-count want={wantV.length} got={gotV.length}"
-      else
-        let sc := (fs.find? (·.startsWith "sc=")).getD "sc=?"
-        s!"OK nt b=e2e-{(sc.drop 3).toString}"
+      let sc := (fs.find? (·.startsWith "sc=")).getD "sc=?"
+      s!"OK nt b=e2e-{(sc.drop 3).toString}"
 
 def judge : Handler
   | "fwd" :: fs, out => judgeFwd fs out
